@@ -203,6 +203,10 @@ def schemas() -> List[dict]:
         shape=r"^Equal\(.*, Subtract\(.*, Constant\)\)$", src="BalancedMoveRule docstring 'a + 2 = 3'")
     add("r = t + c -> r - c = t", "BalancedMoveRule", ("Equal", Any("r"), ("Add", Any("t"), C("c"))), target="c",
         shape=r"^Equal\(Subtract\(.*, Constant\), .*\)$", src="balanced_move.test.json")
+    add("s + (t + c) = r -> s + t = r - c", "BalancedMoveRule", ("Equal", ("Add", Any("s"), ("Add", Any("t"), C("c"))), Any("r")),
+        target="c", shape=r"^Equal\(Add\(.*\), Subtract\(.*, Constant\)\)$", src="balanced_move.test.json (addend of a side, any grouping)")
+    add("(t + c) + s = r -> t + s = r - c", "BalancedMoveRule", ("Equal", ("Add", ("Add", Any("t"), C("c")), Any("s")), Any("r")),
+        target="c", shape=r"^Equal\(Add\(.*\), Subtract\(.*, Constant\)\)$", src="balanced_move.test.json (addend of a side, any grouping)")
     add("c t = r -> c t / c = r / c", "BalancedMoveRule", ("Equal", ("Multiply", C("c", "nonzero"), V("t")), Any("r")), target="c",
         shape=r"^Equal\(Divide\(Multiply\(Constant, Variable\), Constant\), Divide\(.*, Constant\)\)$",
         src="BalancedMoveRule docstring '3a = 3'")
